@@ -50,7 +50,10 @@ static int other_path_ops;
 static int is_dir_path(const char *p) { const char *d = DIRPATH; int i = 0; for (; i < 7 && d[i]; i++) if (p[i] != d[i]) return 0; return p[i] == 0; }
 
 static ssize_t verif_send(int fd, const void *buf, size_t n, int flags);
-static int verif_close(int fd) { (void)fd; return 0; }
+static int fd_closed[16], fd_dispatch_del[16], fd_del_before_close = 1;
+static int verif_close(int fd) { if (fd >= 0 && fd < 16) { fd_closed[fd]++; if (!fd_dispatch_del[fd]) fd_del_before_close = 0; } return 0; }
+static int eof_on_recv;
+static ssize_t verif_recv(int fd, void *buf, size_t n, int flags) { (void)fd; (void)buf; (void)n; (void)flags; if (eof_on_recv) return 0; errno = EAGAIN; return -1; }
 static int verif_shutdown(int fd, int how) { (void)fd; (void)how; return 0; }
 static int verif_setsockopt(int fd, int l, int n, const void *v, socklen_t len) { (void)fd; (void)l; (void)n; (void)v; (void)len; return 0; }
 static char *verif_mkdtemp(char *t)
@@ -80,6 +83,7 @@ static int verif_getsockname(int fd, struct sockaddr *a, socklen_t *l) { (void)f
 static int verif_sigaction(int sig, const struct sigaction *a, struct sigaction *o) { (void)sig; (void)a; (void)o; return 0; }
 #define send verif_send
 #define close verif_close
+#define recv verif_recv
 #define shutdown verif_shutdown
 #define setsockopt verif_setsockopt
 #define mkdtemp verif_mkdtemp
@@ -158,6 +162,7 @@ void qb_rb_close(qb_ringbuffer_t *rb)
 }
 void qb_rb_force_close(qb_ringbuffer_t *rb) { qb_rb_close(rb); }
 void *qb_rb_shared_user_data_get(qb_ringbuffer_t *rb) { static int32_t fc; (void)rb; return &fc; }
+ssize_t qb_rb_chunks_used(qb_ringbuffer_t *rb) { (void)rb; return 0; }
 
 /* ---- service callbacks ---- */
 static int accept_calls, created_calls, destroyed_calls, msg_calls;
@@ -171,12 +176,13 @@ static int32_t s_accept(qb_ipcs_connection_t *c, uid_t u, gid_t g)
 }
 static void s_created(qb_ipcs_connection_t *c) { (void)c; created_calls++; }
 static int32_t s_msg(qb_ipcs_connection_t *c, void *d, size_t n) { (void)c; (void)d; (void)n; msg_calls++; return 0; }
-static int32_t s_closed(qb_ipcs_connection_t *c) { (void)c; return 0; }
+static int closed_calls, closed_after_destroyed, rings_open_at_destroyed;
+static int32_t s_closed(qb_ipcs_connection_t *c) { (void)c; closed_calls++; if (destroyed_calls) closed_after_destroyed = 1; return 0; }
 static void s_destroyed(qb_ipcs_connection_t *c) { (void)c; destroyed_calls++; }
 static int32_t p_dispatch_add(enum qb_loop_priority p, int32_t fd, int32_t ev, void *d, qb_ipcs_dispatch_fn_t fn)
 { (void)p; (void)fd; (void)ev; (void)d; (void)fn; return in_fail_at == 10 ? -ENOMEM : 0; }
 static int32_t p_dispatch_mod(enum qb_loop_priority p, int32_t fd, int32_t ev, void *d, qb_ipcs_dispatch_fn_t fn) { (void)p; (void)fd; (void)ev; (void)d; (void)fn; return 0; }
-static int32_t p_dispatch_del(int32_t fd) { (void)fd; return 0; }
+static int32_t p_dispatch_del(int32_t fd) { if (fd >= 0 && fd < 16) fd_dispatch_del[fd]++; return 0; }
 static int32_t p_job_add(enum qb_loop_priority p, void *data, qb_loop_job_dispatch_fn fn) { (void)p; (void)data; (void)fn; return 0; }
 
 static struct { struct qb_ipc_response_header hdr; } sent;
@@ -230,7 +236,7 @@ void harness(void)
 	PROP(data.ugp.uid == in_uid && data.ugp.gid == in_gid && data.ugp.pid == (pid_t)in_pid, "the credentials used for admission are the kernel-reported ones");
 	WITNESS("auth_creds returned");
 }
-#else
+#elif PART == 2
 void harness(void)
 {
 	IN(in_uid); IN(in_gid); IN(in_pid); IN(in_verdict); IN(in_set_auth); IN(in_auid); IN(in_agid); IN(in_amode); IN(in_fail_at);
@@ -299,5 +305,69 @@ void harness(void)
 	WITNESS("handle_new_connection returned");
 	if (r == 0) WITNESS("accepted path");
 	if (in_verdict != 0) WITNESS("refused path");
+}
+#else
+/*
+ * PART 3 (property C03, server side): the client of an established shared-memory connection
+ * dies.  DEATH = 1: the loop reports POLLHUP; 2: POLLIN with end-of-file on the setup socket;
+ * 3: POLLNVAL.  APP_REF = 1: the application holds a reference of its own and drops it later.
+ */
+#ifndef DEATH
+#define DEATH 1
+#endif
+#ifndef APP_REF
+#define APP_REF 0
+#endif
+static struct qb_ipcs_connection *conn0;
+static int32_t s_accept3(qb_ipcs_connection_t *c, uid_t u, gid_t g) { (void)u; (void)g; conn0 = c; return 0; }
+void harness(void)
+{
+	IN(in_uid); IN(in_gid); IN(in_pid);
+	in_fail_at = 0;
+	struct qb_ipcs_service *svc = calloc(1, sizeof *svc);
+	ASSUME(svc != NULL);
+	svc->type = QB_IPC_SHM; svc->server_sock = 3; svc->pid = 1; svc->ref_count = 1; svc->max_buffer_size = 64;
+	svc->name[0] = 's';
+	svc->serv_fns.connection_accept = s_accept3; svc->serv_fns.connection_created = s_created;
+	svc->serv_fns.msg_process = s_msg; svc->serv_fns.connection_closed = s_closed; svc->serv_fns.connection_destroyed = s_destroyed;
+	qb_ipcs_shm_init(svc);
+	svc->poll_fns.dispatch_add = p_dispatch_add; svc->poll_fns.dispatch_mod = p_dispatch_mod;
+	svc->poll_fns.dispatch_del = p_dispatch_del; svc->poll_fns.job_add = p_job_add;
+	qb_list_init(&svc->connections);
+
+	struct qb_ipc_connection_request req;
+	struct ipc_auth_ugp ugp;
+	memset(&req, 0, sizeof req);
+	req.hdr.id = QB_IPC_MSG_AUTHENTICATE; req.hdr.size = sizeof req; req.max_msg_size = 64;
+	ugp.pid = (pid_t)in_pid; ugp.uid = in_uid; ugp.gid = in_gid;
+	int32_t r = handle_new_connection(svc, 0, 10, &req, sizeof req, &ugp);
+	PROP(r == 0 && conn0 != NULL && created_calls == 1 && nring_opened == 3 && gdir.exists, "harness: connection established over three rings");
+	if (r != 0 || conn0 == NULL) return;
+	if (APP_REF) qb_ipcs_connection_ref(conn0);
+
+	/* the client process dies */
+	int32_t dr;
+	if (DEATH == 1) dr = qb_ipcs_dispatch_connection_request(10, POLLHUP, conn0);
+	else if (DEATH == 2) { eof_on_recv = 1; dr = qb_ipcs_dispatch_connection_request(10, POLLIN, conn0); }
+	else dr = qb_ipcs_dispatch_connection_request(10, POLLNVAL, conn0);
+	PROP(dr != 0, "the dispatcher reports the dead peer (the loop drops the descriptor)");
+	PROP(closed_calls == 1, "closed is invoked once the death is noticed (the connection had been reported as created)");
+	PROP(msg_calls == 0, "no message callback for a dead client");
+	if (APP_REF) {
+		PROP(destroyed_calls == 0, "not destroyed while the application holds a reference");
+		qb_ipcs_connection_unref(conn0);
+	}
+	PROP(destroyed_calls == 1, "destroyed exactly once");
+	PROP(!closed_after_destroyed, "closed precedes destroyed");
+	for (int i = 0; i < 3; i++) {
+		PROP(!gring[i].exists, "every shared-memory file of the dead client is released");
+		PROP(gring[i].removed == 1, "each ring is closed exactly once");
+	}
+	PROP(!gdir.exists, "the temporary directory of the dead client is removed");
+	PROP(fd_closed[10] == 1, "the dead client's descriptor is closed exactly once");
+	PROP(fd_dispatch_del[10] >= 1 && fd_del_before_close, "the descriptor leaves the main loop before it is closed");
+	PROP(qb_list_empty(&svc->connections), "the dead connection is no longer listed");
+	PROP(svc->ref_count == 1, "the service survives with exactly its creator's reference");
+	WITNESS("death handled");
 }
 #endif
